@@ -158,3 +158,23 @@ Example C04_transparent_example :
   no_left_rec t_mod = true /\ t_run true = (true, 2, 2, 6) /\ t_run false = (true, 2, 2, 7).
 Proof. vm_compute. repeat split; reflexivity. Qed.
 Print Assumptions C04_transparent_example.
+
+(* The same at the level of the generator: for EVERY grammar in which the analysis finds no left-recursive
+   leader (whatever the tables), the module the generator model emits has no @memoize_left_rec method
+   (Proofs/GenDeco.v), so the parser generated from it behaves the same with and without its memo cache. *)
+From Pegen Require Import Grammar.Ast Analysis.Nullable Proofs.GenDeco.
+Theorem C04_generated_parsers_without_leaders_are_cache_transparent :
+  forall invalid_tbl iter_fields pre suf file fb g an M,
+  a_leaders an = [] -> generate invalid_tbl iter_fields pre suf file fb g an = inl M ->
+  forall K toks aeval ex td fuel n s,
+  (invalid s = false \/ no_wi M = true) -> cache s = [] ->
+  let rU := run K toks false false M aeval ex td fuel n s in
+  let rC := run K toks false true M aeval ex td fuel n s in
+  fst rU <> OutOfFuel ->
+  fst rC = fst rU /\
+  (forall v, fst rU = Ok v -> pos (snd rC) = pos (snd rU) /\ fetched (snd rC) = fetched (snd rU)).
+Proof.
+  intros tbl itf pre suf file fb g an M Hl HM K toks aeval ex td fuel n s Hi Hc.
+  exact (C04_cache_transparent_partial K toks M aeval ex td fuel n s (no_leaders_no_left_rec tbl itf pre suf file fb g an M Hl HM) Hi Hc).
+Qed.
+Print Assumptions C04_generated_parsers_without_leaders_are_cache_transparent.
